@@ -143,6 +143,15 @@ def r42_sites(chk, F, A):
         if v is None or v[0] is not True:
             return None
         return 'holds on all %d visits from reachable scanner typestates (%s); the audit entered %s with an arbitrary receiver' % (v[2], v[1], stack[0].split('::')[-1])
+
+    def does_not_escape(stack):
+        """a value built *before* its range check (`valid(x).then_some(N(x))`, `Some(N(x)).filter(..)`): accepted when on
+        every path of the entry that reached the site no invariant-violating value is returned, stored through a
+        reference argument, or handed to a separately analysed callee (all paths analysed)"""
+        e = A.escape.get(stack[0]) if stack else None
+        if e is None or not e['complete'] or e['bad']:
+            return None
+        return 'built before its check: no out-of-range value leaves %s on any path' % stack[0].split('::')[-1]
     for (fnkey, path), sites in sorted(by_group.items()):
         f = F.fns[fnkey]
         if scan.is_serde_generated(F, fnkey):
@@ -170,7 +179,7 @@ def r42_sites(chk, F, A):
                     mx = midi.NEWTYPE_MAX[short]
                     v = fields[0] if fields else None
                     if v is None or not v.subset(VS(0, mx)):
-                        note = on_reachable_states(site, stack)
+                        note = on_reachable_states(site, stack) or does_not_escape(stack)
                         if note is not None:
                             if len(found) < 4:
                                 found.append('%s: %s' % (sub.get('at'), note))
@@ -188,7 +197,7 @@ def r42_sites(chk, F, A):
                         continue
                     ok, txt = extra
                     if not ok:
-                        note = on_reachable_states(site, stack)
+                        note = on_reachable_states(site, stack) or does_not_escape(stack)
                         if note is not None:
                             if len(found) < 4:
                                 found.append('%s: %s' % (sub.get('at'), note))
